@@ -30,8 +30,8 @@ from harness import lib_c05 as L
 
 PROPS = 'XsVerif.Props.C05'
 AUDIT = 'XsVerif.Audit.C05'
-LEAN_TARGETS = ['XsVerif.Props.C05', 'drv_c05']
-LEANCHECK = ['XsVerif.Model.Converters', 'XsVerif.Model.ContentOrder', 'XsVerif.Props.C05']
+LEAN_TARGETS = ['XsVerif.Props.C05', 'XsVerif.Props.C05Encode', 'drv_c05', 'drv_c01']
+LEANCHECK = ['XsVerif.Model.Converters', 'XsVerif.Model.ContentOrder', 'XsVerif.Props.C05', 'XsVerif.Props.C05Encode']
 RULE = ('a case is one (schema seed, instance, converter class, converter options[, mutation]); non-trivial = the '
         'document has at least one child element or attribute and the converter took a non-default branch '
         '(attributes dict, text, cdata, list value, repeated name collapsed into a list) — tagged by the branch '
@@ -1132,6 +1132,11 @@ def load_findings(ctx: Ctx) -> None:
 def run(ctx: Ctx, driver_ok: bool) -> None:
     load_findings(ctx)
     drv = Driver('drv_c05') if driver_ok else None
+    # strict-encode soundness of the content model: theorem `strict_encode_sound` (Props/C05Encode.lean) is about
+    # the Lean ports of the encoder's and the validator's child loops; this run ties the encoder's loop to its port
+    # (the validator's loop is tied by C01) and evaluates the clause on the real code
+    from harness.props import c01 as _c01
+    _c01.encoder_family(ctx, Driver('drv_c01') if driver_ok else None, ctx.pick(40, 300), known_fid='C05-F10')
     explore(ctx, drv, ctx.pick(40, 250), ctx.pick(3, 5), ctx.pick(4, 6))
     ctx.extra['explanation'] = ('seeded random schemas x valid instances x 5 converter classes x options; per case: '
                                 'round trip on the real code, mutated-data strict encode, Lean model comparison '
